@@ -44,16 +44,21 @@ MC = {
                   mc_cfg("MC_Roots_hist_t2.cfg", 9, 0, 0, 0, 8, 0, 80, "history", ["InvC08", "InvDecide"])]),
     "C09": dict(
         quick=[mc_cfg("MC_Roots_c09_q1.cfg", 8, -1, 1, 0, 4, 0, 40, "history", ALL_INV),
-               mc_cfg("MC_Roots_c09_q2.cfg", 8, 0, 0, 0, 2, 0, 40, "history", ALL_INV)],
+               mc_cfg("MC_Roots_c09_q2.cfg", 8, 0, 0, 0, 2, 0, 40, "history", ALL_INV),
+               mc_cfg("MC_Roots_c09_q3.cfg", 8, 0, 0, 0, 7, 0, 40, "history", ALL_INV),
+               mc_cfg("MC_Roots_c09_q4.cfg", 8, -1, 1, 0, 8, 0, 40, "history", ALL_INV)],
         thorough=[mc_cfg("MC_Roots_c09_t%d.cfg" % i, L, nb, na, 0, R, 0, 8 * L, "history", ALL_INV)
                   for i, (L, nb, na, R) in enumerate([(8, 0, 0, 1), (8, 0, 0, 2), (8, 0, 0, 4), (8, 0, 0, 6), (8, -1, 1, 4), (8, -2, 0, 2),
-                                                      (12, -1, 2, 3), (9, 0, 0, 2), (12, -2, 2, 7), (16, -1, 1, 5)])]),
+                                                      (12, -1, 2, 3), (9, 0, 0, 2), (12, -2, 2, 7), (16, -1, 1, 5), (8, 0, 0, 7), (8, -1, 1, 8), (12, -1, 2, 13)])]),
 }
 WITNESS = {
     "C08": dict(quick=[("MC_Roots.tla", mc_cfg("MC_Roots_w_promote.cfg", 8, -1, 1, 0, 4, 0, 40, "history", ["NeverPromotes"])[1], "NeverPromotes")],
                 thorough=[("MC_Roots.tla", "MC_Roots_w_promote.cfg", "NeverPromotes")]),
     # the stated node cadence bound is tight: bound + 1 must break trust continuity (span - R even)
-    "C09": dict(quick=[("MC_Roots.tla", mc_cfg("MC_Roots_w_bound.cfg", 8, -1, 1, 0, 4, 1, 40, "history", ["InvNodeTrust"])[1], "InvNodeTrust")],
+    "C09": dict(quick=[("MC_Roots.tla", mc_cfg("MC_Roots_w_bound.cfg", 8, -1, 1, 0, 4, 1, 40, "history", ["InvNodeTrust"])[1], "InvNodeTrust"),
+                       # known finding KF-C09-1 at design level: with a negative not-before skew, rotation intervals in
+                       # [L+skNA, span) reset trust although they are shorter than the validity span
+                       ("MC_Roots.tla", mc_cfg("MC_Roots_w_skewgap.cfg", 8, -1, 1, 0, 9, 0, 40, "history", ["InvNoReset"])[1], "InvNoReset")],
                 thorough=[("MC_Roots.tla", "MC_Roots_w_bound.cfg", "InvNodeTrust"),
                           ("MC_Roots.tla", mc_cfg("MC_Roots_w_bound2.cfg", 8, 0, 0, 0, 2, 1, 40, "history", ["InvNodeTrust"])[1], "InvNodeTrust")]),
 }
@@ -68,6 +73,11 @@ GENS = [
     G("cad2", 8, 0, 0, 2, "cadence", 60, dict(quick=40, thorough=600), ["C09"]),
     G("cad3", 12, -1, 2, 3, "cadence", 80, dict(quick=30, thorough=600), ["C09"]),
     G("cad4", 9, 0, 0, 6, "cadence", 60, dict(quick=30, thorough=600), ["C09"]),
+    # server cadence close to the validity span (late promotions); the node bound degenerates to ~0 there
+    G("cad5", 8, 0, 0, 7, "cadence", 60, dict(quick=40, thorough=600), ["C09"]),
+    G("cad7", 16, 0, 0, 14, "cadence", 50, dict(quick=60, thorough=800), ["C09"]),
+    G("cad8", 16, -2, 2, 17, "cadence", 50, dict(quick=40, thorough=600), ["C09"]),
+    G("cad6", 8, -1, 1, 8, "cadence", 60, dict(quick=40, thorough=600), ["C09"]),
 ]
 
 
